@@ -116,6 +116,8 @@ const HARNESSES: &[(&str, &[&str])] = &[
     ("scenario", &["plain", "buggify10", "eviction"]),
     ("event_sim", &["drop0", "drop30_partition"]),
     ("io_sim", &["calm", "moderate", "chaos"]),
+    // RedisDSTSimulation::with_key_distribution / new_uniform with NON-preset parameters
+    ("redis_dst_dist", &["zipf_1000_1.004", "zipf_1000_0.995", "zipf_999_1.3", "zipf_50_0.7", "zipf_1001_1.0", "uniform_500"]),
 ];
 
 // ---- time dilation inside the worker ("stall" mode) ------------------------------------
@@ -128,8 +130,10 @@ struct Stall {
 }
 static STALL: std::sync::Mutex<Stall> = std::sync::Mutex::new(Stall { on: false, seed: 0, used: 0, targeted: None });
 
-/// called before step `i` of a step-wise harness; sleeps in dilated runs only
+/// called before step `i` of a step-wise harness: sleeps in dilated runs, runs other
+/// simulations on this thread in history runs, does nothing otherwise
 fn stall_point(i: usize) {
+    history_hook(i);
     let go = {
         let mut st = STALL.lock().unwrap();
         if !st.on {
@@ -179,6 +183,365 @@ fn rare_ops(kinds: &[String], cap: usize) -> BTreeSet<usize> {
 fn kind_of<T: std::fmt::Debug>(op: &T) -> String {
     let s = format!("{:?}", op);
     s.split(|c: char| !c.is_alphanumeric()).next().unwrap_or("").to_string()
+}
+
+// ---- history independence ("--history <seed>") --------------------------------------------
+// The target run R = worker(h, p, s) is executed on a thread that (a) first ran a random
+// sequence of OTHER simulations (other kinds, same kind with another seed, same preset,
+// same kind with nearby parameter values), some dropped, some kept alive, and (b) keeps
+// creating, stepping and dropping other simulations between R's steps.  R's output must be
+// the bytes of R alone on a fresh thread.
+enum Live {
+    Dst(redis_sim::simulator::dst::DSTSimulation),
+    Redis(redis_sim::simulator::dst_integration::RedisDSTSimulation),
+    Multi(MultiNodeSimulation, u64),
+    Exec(redis_sim::redis::executor_dst::ExecutorDSTHarness),
+}
+struct History {
+    g: ChaCha8Rng,
+    target: (String, String, u64),
+    live: Vec<Live>,
+    during: usize,
+    log: Vec<String>,
+    /// class predicate of the known finding C20-ambient-fault-config: while R was live, a
+    /// simulation installed a thread-local fault configuration other than the one R installed
+    foreign_config: bool,
+    /// a quarter of the histories may install foreign fault presets while R is live
+    allow_foreign: bool,
+    in_async: bool,
+}
+thread_local! { static HIST: std::cell::RefCell<Option<History>> = std::cell::RefCell::new(None); }
+
+/// the BUGGIFY preset a harness installs in the thread-local context (None: installs nothing)
+fn fault_preset_of(h: &str, p: &str) -> Option<&'static str> {
+    let name = |p: &str| match p { "calm" => "calm", "chaos" => "chaos", _ => "moderate" };
+    match h {
+        "core_dst" | "redis_dst" | "io_sim" => Some(name(p)),
+        "redis_dst_dist" => Some("moderate"),
+        _ => None,
+    }
+}
+const SYNC_KINDS: &[&str] = &["executor", "list", "set", "hash", "sorted_set", "transaction", "crdt_gcounter", "crdt_orset", "multi_node", "partition", "core_dst", "redis_dst", "redis_dst_dist", "wal", "connection", "scenario", "event_sim", "io_sim"];
+
+fn presets_of(h: &str) -> &'static [&'static str] {
+    HARNESSES.iter().find(|(k, _)| *k == h).map(|(_, ps)| *ps).unwrap_or(&[])
+}
+
+fn zipf_params(h: &str, p: &str) -> Option<(u64, f64)> {
+    match h {
+        "redis_dst" => Some((1000, 1.0)),
+        "redis_dst_dist" if p.starts_with("zipf_") => {
+            let mut it = p[5..].split('_');
+            Some((it.next()?.parse().ok()?, it.next()?.parse().ok()?))
+        }
+        _ => None,
+    }
+}
+
+/// the same KIND as (h, p) with nearby parameter values; built, run a little, dropped
+fn near_variant(h: &str, p: &str, s: u64, g: &mut ChaCha8Rng, allow_async: bool) -> String {
+    let tiny = |g: &mut ChaCha8Rng| (g.gen_range(1..5) as f64) * 0.001 * if g.gen_bool(0.5) { 1.0 } else { -1.0 };
+    let s2 = if g.gen_bool(0.5) { s } else { s.wrapping_add(g.gen_range(1..4)) };
+    match h {
+        "redis_dst" | "redis_dst_dist" => {
+            use redis_sim::buggify::FaultConfig;
+            use redis_sim::simulator::dst_integration::{KeyDistribution, RedisDSTSimulation};
+            let (nk, sk) = zipf_params(h, p).unwrap_or((500, 1.0));
+            let (nk2, sk2) = (if g.gen_bool(0.3) { nk + 1 } else if g.gen_bool(0.2) { nk.saturating_sub(1).max(1) } else { nk }, if g.gen_bool(0.2) { 1.0 } else { (sk + tiny(g)).max(0.001) });
+            let fc = match fault_preset_of(h, p) { Some("calm") => FaultConfig::calm(), Some("chaos") => FaultConfig::chaos(), _ => FaultConfig::moderate() };
+            let mut sim = RedisDSTSimulation::with_key_distribution(s2, 5, KeyDistribution::Zipfian { num_keys: nk2, skew: sk2 }).with_faults(fc);
+            sim.run(20);
+            format!("near {}: zipfian num_keys={} skew={} seed={}", h, nk2, sk2, s2)
+        }
+        "multi_node" => {
+            let loss = (0.3 + tiny(g)).clamp(0.0, 1.0);
+            let mut sim = MultiNodeSimulation::new_partitioned(5, 3, s2).with_packet_loss(loss);
+            for r in 0..6 {
+                sim.execute(0, r % 5, Command::set(format!("key_{}", r), SDS::from_str("x")));
+                sim.advance_time_ms(7);
+                sim.gossip_round();
+            }
+            format!("near multi_node: new_partitioned(5,3,{}) loss={}", s2, loss)
+        }
+        "core_dst" => {
+            use redis_sim::simulator::dst::*;
+            let mut cfg = match p { "calm" => DSTConfig::calm(s2), "chaos" => DSTConfig::chaos(s2), _ => DSTConfig::new(s2).with_nodes(5).with_clock_skew(true) };
+            cfg.crash_config.base_crash_probability = (cfg.crash_config.base_crash_probability + tiny(g) * 0.1).max(0.0);
+            cfg.max_clock_skew_ms += g.gen_range(0..2);
+            let mut sim = DSTSimulation::with_config(cfg);
+            for _ in 0..g.gen_range(1..25) {
+                sim.step();
+            }
+            format!("near core_dst: preset {} seed {} crash_prob/skew nudged", p, s2)
+        }
+        "wal" => {
+            use redis_sim::streaming::wal_dst::*;
+            let mut cfg = match p { "baseline" => WalDSTConfig::baseline(), "crash_only" => WalDSTConfig::crash_only(), "chaos" => WalDSTConfig::chaos(), _ => WalDSTConfig::default() };
+            cfg.num_writes = cfg.num_writes + 1 - g.gen_range(0..3);
+            cfg.max_file_size = cfg.max_file_size + 1 - g.gen_range(0..3);
+            let r = WalDSTHarness::new(s2, cfg).run();
+            format!("near wal: preset {} seed {} writes={}", p, s2, r.total_writes)
+        }
+        "streaming" if allow_async => {
+            use redis_sim::streaming::dst::*;
+            let mut cfg = match p { "moderate" => StreamingDSTConfig::moderate(s2), "chaos" => StreamingDSTConfig::chaos(s2), _ => StreamingDSTConfig::calm(s2) };
+            cfg.flush_probability = (cfg.flush_probability + tiny(g)).clamp(0.0, 1.0);
+            cfg.crash_probability = (cfg.crash_probability + tiny(g)).clamp(0.0, 1.0);
+            let rt = tokio::runtime::Builder::new_current_thread().enable_all().start_paused(true).build().unwrap();
+            rt.block_on(async {
+                let mut h = StreamingDSTHarness::new(cfg).await;
+                h.run(40).await;
+            });
+            format!("near streaming: preset {} seed {} probabilities nudged", p, s2)
+        }
+        "compaction" if allow_async => {
+            use redis_sim::streaming::compaction_dst::*;
+            let mut cfg = match p { "aggressive" => CompactionDSTConfig::aggressive(s2), "chaos" => CompactionDSTConfig::chaos(s2), _ => CompactionDSTConfig::calm(s2) };
+            cfg.flush_probability = (cfg.flush_probability + tiny(g)).clamp(0.0, 1.0);
+            cfg.compact_probability = (cfg.compact_probability + tiny(g)).clamp(0.0, 1.0);
+            let rt = tokio::runtime::Builder::new_current_thread().enable_all().start_paused(true).build().unwrap();
+            rt.block_on(async {
+                let mut h = CompactionDSTHarness::new(cfg).await;
+                h.run(40).await;
+            });
+            format!("near compaction: preset {} seed {} probabilities nudged", p, s2)
+        }
+        "crdt_gcounter" | "crdt_pncounter" | "crdt_orset" | "crdt_vectorclock" => {
+            use redis_sim::replication::crdt_dst::*;
+            let mut cfg = match p { "moderate" => CRDTDSTConfig::moderate(s2), "chaos" => CRDTDSTConfig::chaos(s2), _ => CRDTDSTConfig::calm(s2) };
+            cfg.message_drop_prob = (cfg.message_drop_prob + tiny(g)).clamp(0.0, 1.0);
+            let mut hh = ORSetDSTHarness::new(cfg.clone());
+            hh.run(20);
+            hh.sync_all();
+            let mut h2 = GCounterDSTHarness::new(cfg);
+            h2.run(20);
+            h2.sync_all();
+            format!("near crdt: preset {} seed {} drop prob nudged", p, s2)
+        }
+        "set" => {
+            use redis_sim::redis::set_dst::*;
+            let mut cfg = SetDSTConfig::new(s2);
+            cfg.remove_prob = (cfg.remove_prob + tiny(g)).clamp(0.0, 1.0);
+            cfg.num_members += 1;
+            let mut hh = SetDSTHarness::new(cfg);
+            hh.run(40);
+            format!("near set: seed {} remove_prob nudged", s2)
+        }
+        "list" => {
+            use redis_sim::redis::list_dst::*;
+            let mut cfg = ListDSTConfig::new(s2);
+            cfg.pop_prob = (cfg.pop_prob + tiny(g)).clamp(0.0, 1.0);
+            let mut hh = ListDSTHarness::new(cfg);
+            hh.run(40);
+            format!("near list: seed {} pop_prob nudged", s2)
+        }
+        "executor" => {
+            use redis_sim::redis::executor_dst::*;
+            let mut cfg = match p { "calm" => ExecutorDSTConfig::calm(s2), "chaos" => ExecutorDSTConfig::chaos(s2), "string_heavy" => ExecutorDSTConfig::string_heavy(s2), _ => ExecutorDSTConfig::new(s2) };
+            cfg.num_keys += 1;
+            cfg.zipf_exponent += tiny(g);
+            let mut hh = ExecutorDSTHarness::new(cfg);
+            hh.run(60);
+            format!("near executor: preset {} seed {} num_keys+1 zipf nudged", p, s2)
+        }
+        _ => {
+            // no public parameters to nudge: the same kind and preset with a neighbouring seed
+            if allow_async || SYNC_KINDS.contains(&h) {
+                let s3 = s.wrapping_add(1);
+                let _ = run_worker_caught(h, p, s3);
+                format!("same kind {} preset {} seed {}", h, p, s3)
+            } else {
+                String::from("skipped (async kind inside a runtime)")
+            }
+        }
+    }
+}
+
+/// the fault preset a background simulation installs: R's own, except in the histories that
+/// are allowed to install foreign ones
+fn pick_preset(hs: &mut History, r_reads: Option<&'static str>, default: &'static str) -> &'static str {
+    match r_reads {
+        Some(rp) if !(hs.allow_foreign && hs.g.gen_bool(0.4)) => rp,
+        Some(_) => ["calm", "moderate", "chaos"][hs.g.gen_range(0..3)],
+        None => if hs.g.gen_bool(0.5) { default } else { ["calm", "moderate", "chaos"][hs.g.gen_range(0..3)] },
+    }
+}
+
+fn step_live(l: &mut Live, g: &mut ChaCha8Rng) {
+    for _ in 0..g.gen_range(1..4) {
+        match l {
+            Live::Dst(sim) => sim.step(),
+            Live::Redis(sim) => {
+                sim.run(1);
+            }
+            Live::Multi(sim, n) => {
+                *n += 1;
+                sim.execute(0, (*n % 3) as usize, Command::set(format!("bg_{}", *n % 7), SDS::from_str("b")));
+                sim.advance_time_ms(5);
+                sim.gossip_round();
+            }
+            Live::Exec(hh) => hh.run(1),
+        }
+    }
+}
+
+/// one action of the thread's history; `during` = R is live (between two of its steps)
+fn history_action(hs: &mut History, during: bool, force: Option<u32>) {
+    let (h, p, s) = hs.target.clone();
+    let r_reads = fault_preset_of(&h, &p);
+    let allow_async = !hs.in_async;
+    let mut installs: Option<&'static str> = None;
+    let roll: u32 = hs.g.gen_range(0..100);
+    let what = match force.unwrap_or(roll) {
+        // keep-alive background simulations: create one, or step the ones alive
+        0..=29 => {
+            if hs.live.len() < 3 && (hs.live.is_empty() || hs.g.gen_bool(0.3)) {
+                let s2 = hs.g.gen_range(0..1_000_000u64);
+                match hs.g.gen_range(0..4) {
+                    0 => {
+                        use redis_sim::simulator::dst::*;
+                        // mostly R's own preset (a compatible neighbour), sometimes a foreign one
+                        let want = pick_preset(hs, r_reads, "chaos");
+                        let cfg = match want { "calm" => DSTConfig::calm(s2), "chaos" => DSTConfig::chaos(s2), _ => DSTConfig::new(s2) };
+                        installs = Some(want);
+                        hs.live.push(Live::Dst(DSTSimulation::with_config(cfg)));
+                        format!("create live DSTSimulation preset {} seed {}", want, s2)
+                    }
+                    1 => {
+                        use redis_sim::buggify::FaultConfig;
+                        use redis_sim::simulator::dst_integration::RedisDSTSimulation;
+                        let want = pick_preset(hs, r_reads, "moderate");
+                        let fc = match want { "calm" => FaultConfig::calm(), "chaos" => FaultConfig::chaos(), _ => FaultConfig::moderate() };
+                        installs = Some(want);
+                        hs.live.push(Live::Redis(RedisDSTSimulation::new(s2, 5).with_faults(fc)));
+                        format!("create live RedisDSTSimulation::new faults {} seed {}", want, s2)
+                    }
+                    2 => {
+                        hs.live.push(Live::Multi(MultiNodeSimulation::new_partitioned(4, 2, s2).with_packet_loss(0.2), 0));
+                        format!("create live MultiNodeSimulation seed {}", s2)
+                    }
+                    _ => {
+                        use redis_sim::redis::executor_dst::*;
+                        hs.live.push(Live::Exec(ExecutorDSTHarness::new(ExecutorDSTConfig::new(s2))));
+                        format!("create live ExecutorDSTHarness seed {}", s2)
+                    }
+                }
+            } else {
+                let mut live = std::mem::take(&mut hs.live);
+                for l in live.iter_mut() {
+                    step_live(l, &mut hs.g);
+                }
+                if !live.is_empty() && hs.g.gen_bool(0.1) {
+                    live.remove(0); // dropped while R is live
+                }
+                hs.live = live;
+                String::from("step live background simulations")
+            }
+        }
+        // same kind, same preset, another (or the same) seed: built, run, dropped
+        30..=49 => {
+            if allow_async || SYNC_KINDS.contains(&h.as_str()) {
+                let s2 = if hs.g.gen_bool(0.2) { s } else { hs.g.gen_range(0..1_000_000u64) };
+                installs = fault_preset_of(&h, &p);
+                let _ = run_worker_caught(&h, &p, s2);
+                format!("run+drop same kind {} preset {} seed {}", h, p, s2)
+            } else {
+                String::from("skipped")
+            }
+        }
+        // same kind, nearby parameter values
+        50..=69 => {
+            installs = fault_preset_of(&h, &p);
+            let mut g2 = ChaCha8Rng::seed_from_u64(hs.g.gen());
+            catch_unwind(AssertUnwindSafe(|| near_variant(&h, &p, s, &mut g2, allow_async))).unwrap_or_else(|_| String::from("near variant panicked"))
+        }
+        // a simulation that owns a DSTSimulation (creates and drops one)
+        70..=79 => {
+            let k = if hs.g.gen_bool(0.5) { "core_dst" } else { "redis_dst" };
+            let want = pick_preset(hs, r_reads, "chaos");
+            let s2 = hs.g.gen_range(0..1_000_000u64);
+            installs = Some(want);
+            let _ = run_worker_caught(k, want, s2);
+            format!("run+drop {} preset {} seed {}", k, want, s2)
+        }
+        // any other kind, any preset
+        _ => {
+            let kinds: Vec<&str> = HARNESSES.iter().map(|(k, _)| *k).filter(|k| allow_async || SYNC_KINDS.contains(k)).collect();
+            let k = kinds[hs.g.gen_range(0..kinds.len())];
+            let ps = presets_of(k);
+            let mut k = k;
+            let mut p2 = ps[hs.g.gen_range(0..ps.len())];
+            // a kind that installs a fault preset while R is live: R's own preset unless this
+            // history is one of those that may install foreign ones
+            if let (Some(rp), Some(x)) = (r_reads, fault_preset_of(k, p2)) {
+                if x != rp && !(hs.allow_foreign && hs.g.gen_bool(0.5)) {
+                    match ps.iter().copied().find(|c| fault_preset_of(k, c) == Some(rp)) {
+                        Some(c) => p2 = c,
+                        None => {
+                            k = "crdt_orset";
+                            p2 = "moderate";
+                        }
+                    }
+                }
+            }
+            let s2 = hs.g.gen_range(0..1_000_000u64);
+            installs = fault_preset_of(k, p2);
+            let _ = run_worker_caught(k, p2, s2);
+            format!("run+drop {} preset {} seed {}", k, p2, s2)
+        }
+    };
+    if during {
+        hs.during += 1;
+        if let (Some(rp), Some(x)) = (r_reads, installs) {
+            if rp != x {
+                hs.foreign_config = true;
+            }
+        }
+    }
+    if hs.log.len() < 60 {
+        hs.log.push(format!("{}{}", if during { "during: " } else { "before: " }, what));
+    }
+}
+
+fn history_hook(i: usize) {
+    // the history is taken out of the thread-local while it acts, so simulations run from
+    // inside an action do not recurse into it
+    let taken = HIST.with(|h| h.borrow_mut().take());
+    if let Some(mut hs) = taken {
+        if hs.during < 30 && (i == 1 || hs.g.gen_range(0..6) == 0) {
+            history_action(&mut hs, true, None);
+        }
+        HIST.with(|h| *h.borrow_mut() = Some(hs));
+    }
+}
+
+/// R on a thread with a history; returns R's output followed by one "#history" line
+fn worker_with_history(h: &str, p: &str, s: u64, hist_seed: u64) -> String {
+    let mut hs = History {
+        g: ChaCha8Rng::seed_from_u64(hist_seed),
+        target: (h.to_string(), p.to_string(), s),
+        live: Vec::new(),
+        during: 0,
+        log: Vec::new(),
+        foreign_config: false,
+        allow_foreign: false,
+        in_async: false,
+    };
+    hs.allow_foreign = hs.g.gen_range(0..4) == 0;
+    for _ in 0..hs.g.gen_range(2..6) {
+        history_action(&mut hs, false, None);
+    }
+    // a harness that installs no fault configuration of its own inherits whatever the thread
+    // holds: in half of its histories the last thing before it is a simulation that owns (and
+    // drops) a DSTSimulation
+    if fault_preset_of(h, p).is_none() && hs.g.gen_bool(0.5) {
+        history_action(&mut hs, false, Some(75));
+    }
+    hs.in_async = h == "streaming" || h == "compaction";
+    HIST.with(|x| *x.borrow_mut() = Some(hs));
+    let out = run_worker_caught(h, p, s);
+    let hs = HIST.with(|x| x.borrow_mut().take()).expect("history");
+    format!("{}#history during={} foreign_config={} log={}\n", out, hs.during, hs.foreign_config, hs.log.join(" ; "))
 }
 
 macro_rules! step_dst {
@@ -324,6 +687,22 @@ fn worker(harness: &str, preset: &str, seed: u64) -> String {
             let mut sim = RedisDSTSimulation::new(seed, 5).with_faults(fc);
             // run(1) x 150: one step per call so that a dilated run can stall between steps
             for i in 0..150 {
+                stall_point(i);
+                sim.run(1);
+            }
+            let r = sim.run(0).clone();
+            print_sim_result(&mut o, &r);
+            writeln!(o, "stats {:?} converged={}", sim.stats(), sim.check_convergence()).unwrap();
+        }
+        "redis_dst_dist" => {
+            use redis_sim::buggify;
+            use redis_sim::simulator::dst_integration::{KeyDistribution, RedisDSTSimulation};
+            buggify::reset_stats();
+            let mut sim = match zipf_params(harness, preset) {
+                Some((nk, sk)) => RedisDSTSimulation::with_key_distribution(seed, 5, KeyDistribution::Zipfian { num_keys: nk, skew: sk }),
+                None => RedisDSTSimulation::new_uniform(seed, 5, preset.rsplit('_').next().and_then(|x| x.parse().ok()).unwrap_or(500)),
+            };
+            for i in 0..120 {
                 stall_point(i);
                 sim.run(1);
             }
@@ -790,6 +1169,8 @@ enum Dilation {
     Stall,
     /// the parent stops the child with SIGSTOP / SIGCONT
     Stop,
+    /// not a dilation: the worker runs the target on a thread with a history (seed of the history)
+    History(u64),
 }
 
 fn signal(pid: u32, sig: &str) {
@@ -804,6 +1185,9 @@ fn spawn_worker(h: &str, p: &str, s: u64, mode: Dilation) -> String {
     cmd.args(["--role", "worker", "--harness", h, "--preset", p, "--hseed", &s.to_string()]);
     if mode == Dilation::Stall {
         cmd.args(["--dilate", "stall"]);
+    }
+    if let Dilation::History(hs) = mode {
+        cmd.args(["--history", &hs.to_string()]);
     }
     if mode != Dilation::Stop {
         let out = cmd.output().expect("spawn worker");
@@ -845,10 +1229,10 @@ fn spawn_worker(h: &str, p: &str, s: u64, mode: Dilation) -> String {
 }
 
 /// harnesses with a step loop the worker can stall in
-const STALLABLE: &[&str] = &["executor", "list", "set", "hash", "sorted_set", "transaction", "crdt_gcounter", "crdt_pncounter", "crdt_orset", "crdt_vectorclock", "multi_node", "core_dst", "redis_dst", "streaming", "compaction", "connection", "event_sim", "io_sim"];
+const STALLABLE: &[&str] = &["executor", "list", "set", "hash", "sorted_set", "transaction", "crdt_gcounter", "crdt_pncounter", "crdt_orset", "crdt_vectorclock", "multi_node", "core_dst", "redis_dst", "streaming", "compaction", "connection", "event_sim", "io_sim", "redis_dst_dist"];
 /// harnesses that touch persistence, WAL, compaction, TTL/expiry, clock skew or BUGGIFY timing:
 /// every one of their triples gets the dilated runs (the others: a seeded quarter)
-const CLOCK_SENSITIVE: &[&str] = &["streaming", "compaction", "wal", "executor", "scenario", "redis_dst", "core_dst", "io_sim", "connection"];
+const CLOCK_SENSITIVE: &[&str] = &["streaming", "compaction", "wal", "executor", "scenario", "redis_dst", "core_dst", "io_sim", "connection", "redis_dst_dist"];
 
 fn first_diff(a: &str, b: &str) -> (usize, String, String) {
     let (la, lb): (Vec<&str>, Vec<&str>) = (a.lines().collect(), b.lines().collect());
@@ -877,9 +1261,23 @@ struct Diff {
     c2: String,
     /// dilated runs: (mode name, output)
     dil: Vec<(&'static str, String)>,
+    /// history runs: (seed of the history, R's output, the "#history" line)
+    hist: Vec<(u64, String, String)>,
 }
 
-fn run_triple(idx: u64, h: &str, p: &str, s: u64, dilate: bool) -> Diff {
+/// the fields that report the thread's BUGGIFY counters, cut off (known finding
+/// C20-ambient-buggify-stats: they count every simulation on the thread)
+fn mask_stats(t: &str) -> String {
+    t.lines()
+        .map(|l| match l.find("buggify_checks=").or_else(|| if l.starts_with("buggify checks=") { Some(0) } else { None }) {
+            Some(i) => &l[..i],
+            None => l,
+        })
+        .collect::<Vec<_>>()
+        .join("\n")
+}
+
+fn run_triple(idx: u64, h: &str, p: &str, s: u64, dilate: bool, nhist: u64) -> Diff {
     let a = spawn_worker(h, p, s, Dilation::None);
     let b = spawn_worker(h, p, s, Dilation::None);
     let mut dil = Vec::new();
@@ -898,7 +1296,18 @@ fn run_triple(idx: u64, h: &str, p: &str, s: u64, dilate: bool) -> Diff {
     let (c, c2) = std::thread::spawn(move || (run_worker_caught(&h2, &p2, s), run_worker_caught(&h2, &p2, s)))
         .join()
         .unwrap_or_else(|_| ("IN-PROCESS RUN DIED\n".to_string(), String::new()));
-    Diff { idx, h: h.to_string(), p: p.to_string(), s, a, b, c, c2, dil }
+    // history independence: R on a thread that ran / is running other simulations
+    let mut hist = Vec::new();
+    for k in 0..nhist {
+        let hseed = fx(&format!("history {} {} {} {}", h, p, s, k)) ^ idx;
+        let raw = spawn_worker(h, p, s, Dilation::History(hseed));
+        let (body, meta) = match raw.rfind("#history ") {
+            Some(i) => (raw[..i].to_string(), raw[i..].trim_end().to_string()),
+            None => (raw, String::from("#history <missing>")),
+        };
+        hist.push((hseed, body, meta));
+    }
+    Diff { idx, h: h.to_string(), p: p.to_string(), s, a, b, c, c2, dil, hist }
 }
 
 fn main() {
@@ -913,6 +1322,10 @@ fn main() {
             let mut st = STALL.lock().unwrap();
             st.on = true;
             st.seed = s;
+        }
+        if let Some(hs) = args.extra.get("history").and_then(|x| x.parse::<u64>().ok()) {
+            print!("{}", worker_with_history(&h, &p, s, hs));
+            return;
         }
         print!("{}", run_worker_caught(&h, &p, s));
         return;
@@ -948,6 +1361,7 @@ fn main() {
         let k = (idx - TRIPLE_BASE) % dseeds;
         replaying || (k < dilate_seeds && (CLOCK_SENSITIVE.contains(&h) || fx(&format!("dilate{}", idx)) % 4 == 0))
     };
+    let nhist = if replaying { args.get("histories", 2).max(4) } else { args.get("histories", 2) };
     let threads: Vec<_> = (0..args.get("jobs", 8))
         .map(|_| {
             let (work, results) = (work.clone(), results.clone());
@@ -956,12 +1370,12 @@ fn main() {
                 match item {
                     Some((i, h, p, s)) => {
                         let dl = wants_dilation(i, &h);
-                        let mut d = run_triple(i, &h, &p, s, dl);
+                        let mut d = run_triple(i, &h, &p, s, dl, nhist);
                         // a replay repeats the comparison a few times: which iteration order a
                         // process draws is random, so one pair of runs can agree by chance
                         let mut tries = if replaying { 7 } else { 0 };
-                        while tries > 0 && d.a == d.b && d.a == d.c && d.a == d.c2 && d.dil.iter().all(|(_, x)| *x == d.a) {
-                            d = run_triple(i, &h, &p, s, dl);
+                        while tries > 0 && d.a == d.b && d.a == d.c && d.a == d.c2 && d.dil.iter().all(|(_, x)| *x == d.a) && d.hist.iter().all(|(_, x, _)| *x == d.a) {
+                            d = run_triple(i, &h, &p, s, dl, nhist);
                             tries -= 1;
                         }
                         results.lock().unwrap().push(d);
@@ -1047,6 +1461,32 @@ fn main() {
         for (mode, _) in &d.dil {
             out.impl_checks += 1;
             out.count(&format!("dilated:{}:{}", mode, d.h));
+        }
+        for (hseed, body, meta) in &d.hist {
+            out.impl_checks += 1;
+            out.count(&format!("history:{}", d.h));
+            if *body == d.a {
+                continue;
+            }
+            let during: u64 = meta.split("during=").nth(1).and_then(|x| x.split(' ').next()).and_then(|x| x.parse().ok()).unwrap_or(0);
+            let foreign = meta.contains("foreign_config=true");
+            let (ln, xa, xh) = first_diff(&d.a, body);
+            let detail = json!({"harness": d.h, "preset": d.p, "hseed": d.s, "history_seed": hseed, "between": "the run alone on a fresh thread vs the same run on a thread that ran / keeps running other simulations (worker flag --history <history_seed>)", "line": ln, "alone": xa, "with_history": xh, "history": meta.chars().take(1500).collect::<String>()});
+            if args.only.is_some() {
+                println!("DIFFERENT with thread history {} at line {}:\n  alone:        {}\n  with history: {}\n  {}", hseed, ln, xa, xh, meta.chars().take(1500).collect::<String>());
+            }
+            if during > 0 && mask_stats(body) == mask_stats(&d.a) {
+                // only the reported BUGGIFY counters differ and other simulations ran while R was live
+                out.known("C20-ambient-buggify-stats", d.idx, detail);
+            } else if foreign {
+                out.known("C20-ambient-fault-config", d.idx, detail);
+            } else {
+                out.violation(
+                    d.idx,
+                    &format!("harness {} preset {} seed {}: the run depends on what ran before / runs alongside it on the same thread (history {}; first difference at line {})", d.h, d.p, d.s, hseed, ln),
+                    detail,
+                );
+            }
         }
     }
     // Out keeps three samples: one kernel case, then triples
